@@ -4,7 +4,7 @@
    The implementation's fused decode-and-coerce (IDLArgs::from_bytes_with_types / from_bytes, binary_parser::Header)
    is compared with it by the correspondence run; the theorems below are the meta-theory that makes it the right oracle. *)
 From Coq Require Import List NArith ZArith.
-From CandidV Require Import model.Coerce proofs.WireProofs proofs.CoerceProofs.
+From CandidV Require Import Consts model.Coerce model.De proofs.WireProofs proofs.CoerceProofs proofs.DeFast proofs.DeSpec.
 Open Scope N_scope.
 
 (* the value decoder inverts the spec's value encoding M at every type: for every well-typed value, any trailing input *)
@@ -32,6 +32,25 @@ Example C02_ex_decode :             (* DIDL, no table, one nat argument 5, read 
   spec_decode [] [TPrim PInt; TOpt (TPrim PText)] [68;73;68;76;0;1;125;5] = Ok [VInt 5; VOpt None].
 Proof. vm_compute. reflexivity. Qed.
 
+(* The decoder AS IT IS (model/De.v, the single-pass mirror of de.rs that the check compares with IDLDeserialize on values and
+   costs): at an expected type that is the wire type up to names it returns exactly what M^-1 returns -- for every
+   environment, input and fuel, with the primitive-vector, big-number and blob fast paths, the field merge and the
+   back-tracking of opt included. *)
+Theorem C02_decoder_is_M_inverse_at_the_wire_type : forall f E u lc e w a bs v r c,
+  wf_env E = true -> trace E e = Some a -> trace E w = Some a -> ty_closed E a = true ->
+  dec_val f E a bs = Ok (v, r) ->
+  exists c', de f E u HV lc e w bs nolim c = (c', Ok (v, r)).
+Proof. exact de_at_wire_type. Qed.
+
+(* and for whole messages with no expected types (IDLArgs::from_bytes): whenever the specification's decoder accepts a
+   message (whose table is closed), so does the decoder as it is, with the same values *)
+Theorem C02_untyped_decoder_is_spec : forall bs Ew tws vs c,
+  spec_decode_untyped bs = Ok (Ew, tws, vs) -> wf_env Ew = true -> forallb (ty_closed Ew) tws = true ->
+  exists c', de_message_untyped max_type_table_len bs nolim c = (c', Ok vs).
+Proof. exact de_message_untyped_is_spec. Qed.
+
 Print Assumptions C02_value_decoder_inverts_M.
+Print Assumptions C02_decoder_is_M_inverse_at_the_wire_type.
+Print Assumptions C02_untyped_decoder_is_spec.
 Print Assumptions C02_coerce_welltyped.
 Print Assumptions C02_coerce_same_type.
